@@ -10,6 +10,7 @@ import (
 	"reflect"
 	"time"
 
+	"go.sia.tech/core/consensus"
 	"go.sia.tech/core/types"
 )
 
@@ -370,6 +371,7 @@ func (g G) v1txns(n int) []types.Transaction {
 // ---- structural equality ----
 
 var timeType = reflect.TypeOf(time.Time{})
+var stateType = reflect.TypeOf(consensus.State{})
 var errorType = reflect.TypeOf((*error)(nil)).Elem()
 
 // equalObj compares two values structurally: nil and empty slices are equal
@@ -494,6 +496,9 @@ func eqv(a, b reflect.Value, path string) string {
 		}
 	case reflect.Struct:
 		for i := 0; i < a.NumField(); i++ {
+			if a.Type() == stateType && a.Type().Field(i).Name == "Network" {
+				continue // documented: network parameters are not encoded with a State
+			}
 			if d := eqv(a.Field(i), b.Field(i), path+"."+a.Type().Field(i).Name); d != "" {
 				return d
 			}
